@@ -164,6 +164,9 @@ func getAugmentableNodesForModule(applyToMod parse.Node) []parse.Node {
 		applyToMod.ChildrenByType(parse.NodeInput)...)
 	allowedNodes = append(allowedNodes,
 		applyToMod.ChildrenByType(parse.NodeOutput)...)
+	// (the path of an augment or deviation may lead into a notification)
+	allowedNodes = append(allowedNodes,
+		applyToMod.ChildrenByType(parse.NodeNotification)...)
 	return allowedNodes
 }
 
